@@ -59,6 +59,6 @@ TNext ==
 TSpec == TInit /\ [][TNext]_<<vars, l>>
 
 \* along the validated trace the specification's own invariant holds of the advanced state
-MemoHoldsAuthenticOnly == \A m \in memo : m \in leniency \/ \E k \in {"t1verify", "t5verify", "rlissuer", "attester", "ecdsa", "ed25519", "t1final", "t2final", "t3final", "t5final", "batchissuer", "rlorigins"} :
+MemoHoldsAuthenticOnly == \A m \in memo : m \in leniency \/ \E k \in {"t1verify", "t5verify", "rlissuer", "attester", "ecdsa", "ed25519", "t1final", "t2final", "t3final", "t5final", "batchissuer", "rlorigins", "t1issue", "t2issue", "t5issue", "t3issue"} :
                              m \in NamesOf(k) /\ ValidIn(k, m)
 =============================================================================
